@@ -512,6 +512,42 @@ def r4_fallbacks(rep, src, g):
         if any(isinstance(s, ast.Return) and s.value is not None and (_is_download(s.value, f) or (isinstance(s.value, ast.Call) and norm(s.value.func) in closures))
                for s in h.body):
             return True
+        # the handler leaves a loop (break) or falls out of the try: on the flow graph, every path from the handler reaches
+        # `return download_file(...)` and passes nothing but prints, tests of the verbose flag and jumps on the way
+        try:
+            g2 = cfg.CFG(f.node)
+            hn = [n_ for n_ in g2.nodes if n_.kind == 'handler' and n_.ast is h]
+            if hn:
+                seen, todo, ok_all = set(), [hn[0].id], True
+                while todo and ok_all:
+                    cur = todo.pop()
+                    if cur in seen:
+                        continue
+                    seen.add(cur)
+                    nd = g2.nodes[cur]
+                    if nd.kind == 'return':
+                        v_ = nd.ast.value if nd.ast is not None else None
+                        if v_ is None or not (_is_download(v_, f) or (isinstance(v_, ast.Call) and norm(v_.func) in closures)):
+                            ok_all = False
+                        continue
+                    if nd.kind in ('exit', 'raise_exit', 'raise'):
+                        ok_all = False
+                        continue
+                    if nd.kind == 'stmt' and not (isinstance(nd.ast, ast.Pass) or (isinstance(nd.ast, ast.Expr) and isinstance(nd.ast.value, ast.Call)
+                                                                                   and norm(nd.ast.value.func) == 'print')):
+                        ok_all = False
+                        continue
+                    if nd.kind == 'test' and not ({n_.id for n_ in ast.walk(nd.ast) if isinstance(n_, ast.Name)} <= {'verbose'}):
+                        ok_all = False
+                        continue
+                    if nd.kind == 'fortest':
+                        ok_all = False          # back into a loop: more patches would be applied
+                        continue
+                    todo.extend(d_ for d_, _lab in g2.succ[cur])
+                if ok_all and len(seen) > 1:
+                    return True
+        except AnalysisError:
+            pass
         # the handler only marks the failure (`lines = None`) and the statements after the try turn the mark into the full download:
         # every path from the handler reaches `return download_file(...)` before it does anything else than print
         if t is None or t not in f.node.body:
